@@ -211,16 +211,28 @@ class ProcGen:
                   self.kw('end')]
         return self.join(parts) + ';'
 
+    TRANSACTION = ['begin', 'begin transaction', 'commit', 'rollback',
+                   'start transaction', 'begin work', 'end', 'commit work',
+                   'savepoint sp1']
+
+    def surrounding(self):
+        """A plain statement around the CREATE: a grammar statement or a
+        transaction-control statement (BEGIN; / COMMIT; / END; ...)."""
+        if self.rng.random() < 0.25:
+            words = self.rng.choice(self.TRANSACTION).split()
+            return self.ws().join(self.kw(w) for w in words) + ';'
+        return self.render_stmt(self.plain) + ';'
+
     def script(self, clean=True):
         """(text, expected pieces, triggers)."""
         rng = self.rng
         trig = set()
         pieces = []
         for _ in range(rng.choice([0, 0, 1, 2, 3])):
-            pieces.append(self.render_stmt(self.plain) + ';')
+            pieces.append(self.surrounding())
         pieces.append(self.create(clean, trig))
         for _ in range(rng.choice([0, 1, 1, 2, 3])):
-            pieces.append(self.render_stmt(self.plain) + ';')
+            pieces.append(self.surrounding())
         text = ''
         for p in pieces:
             text += p + rng.choice([' ', '\n', '\n\n', '  \n', '\r\n'])
